@@ -535,16 +535,54 @@ theorem call_raw_keys (c : Call) (hwf : c.WF) (hs : Same now p r) (hl : p.listen
   | zremRangeByRank k a b => exact one (zremRangeByRank_main hs hl hfd (Call.zremRangeByRank k a b).info rfl k a b hreg).2.2
   | zremRangeByScore k a b mode =>
     exact one (zremRangeByScore_main hs hl hfd (Call.zremRangeByScore k a b mode).info rfl k a b mode hreg).2.2
+  | renameNX a b =>
+    intro op hop
+    rw [(renameNX_main hs hl hfd (Call.renameNX a b).info rfl a b).2.2 op hop]; simp [Call.keys]
+  | smove src dst m =>
+    obtain ⟨moves, _, _, _, f1⟩ := smove_spec hs.invP src dst m hwf
+    have hfeed : (Api.smove p now src dst m).1.feed = _ := congrArg Prod.fst (f1 hl)
+    intro op hop
+    show op.key ∈ [src, dst]
+    have hop' : op ∈ (Api.smove p now src dst m).1.feed.reverse := hop
+    rw [hfeed, hfd] at hop'
+    cases moves with
+    | false => simp at hop'
+    | true => simp at hop'; subst hop'; simp [opSAdd]
+  | lpopRpush a b =>
+    intro op hop
+    rw [(rotate_main true hs hl hfd (Call.lpopRpush a b).info rfl a b).2.2 op hop]; simp [Call.keys]
+  | rpopLpush a b =>
+    intro op hop
+    rw [(rotate_main false hs hl hfd (Call.rpopLpush a b).info rfl a b).2.2 op hop]; simp [Call.keys]
+  | sdiffStore dst ks =>
+    intro op hop
+    rw [(sstore_main Api.sdiff sdiff_reader hs hl hfd (Call.sdiffStore dst ks).info rfl dst ks).2.2 op hop]
+    simp [Call.keys]
+  | sinterStore dst ks =>
+    intro op hop
+    rw [(sstore_main Api.sinter sinter_reader hs hl hfd (Call.sinterStore dst ks).info rfl dst ks).2.2 op hop]
+    simp [Call.keys]
+  | sunionStore dst ks =>
+    intro op hop
+    rw [(sstore_main Api.sunion sunion_reader hs hl hfd (Call.sunionStore dst ks).info rfl dst ks).2.2 op hop]
+    simp [Call.keys]
+  | zincrBy k m d =>
+    exact one (zincrby_main hs hl hfd (Call.zincrBy k m d).info rfl k m d hwf hreg).2.2
+  | hincrByFloat k f d =>
+    exact one (hincrbyfloat_main hs hl hfd (Call.hincrByFloat k f d).info rfl k f d hwf hreg).2.2
 
 /-- every record handed to a watcher by a covered call names one of the call's key arguments
     (CLEAR hands over one CLEAR record, which names no key) -/
 theorem call_keys (c : Call) (hwf : c.WF) (hs : Same now p r) (hl : p.listeners = true) (hfd : p.feed = [])
     (hreg : ¬ c.Region (lookup p now)) (hc : c ≠ .clear) :
     ∀ op ∈ Feed.emission c.info (c.run p now).2 (c.run p now).1.feed.reverse, op.key ∈ c.keys := by
-  have h1 : c.info.method ≠ "SMove" := by
-    cases c <;> simp [Call.info, Call.method]
-  have h2 : c.info.method ≠ "Clear" := by
-    cases c <;> first | exact absurd rfl hc | simp [Call.info, Call.method]
-  exact emission_keys h1 h2 (P := fun k => k ∈ c.keys) (call_raw_keys c hwf hs hl hfd hreg) _
+  by_cases hsm : ∃ a b m, c = .smove a b m
+  · obtain ⟨a, b, m, rfl⟩ := hsm
+    exact (smove_main hs hl hfd (Call.smove a b m).info rfl a b m rfl hwf).2.2
+  · have h1 : c.info.method ≠ "SMove" := by
+      cases c <;> first | exact absurd ⟨_, _, _, rfl⟩ hsm | simp [Call.info, Call.method]
+    have h2 : c.info.method ≠ "Clear" := by
+      cases c <;> first | exact absurd rfl hc | simp [Call.info, Call.method]
+    exact emission_keys h1 h2 (P := fun k => k ∈ c.keys) (call_raw_keys c hwf hs hl hfd hreg) _
 
 end NodisVerif.Proofs.C20
